@@ -34,7 +34,10 @@ def gen_case(rnd):
         buckets.append({"id": bid, "type": rnd.choice(["currentwindow", "afk"]), "client": "cl", "hostname": rnd.choice(["h1", "hö"]),
                         "name": rnd.choice([None, "nm"]), "data": rnd.choice([None, {"k": [1, {"z": "ü"}]}, {"a": "b"}]),
                         "n": n, "delete": sorted(rnd.sample(range(n), min(n, rnd.choice([0, 0, 1, 2])))), "dups": rnd.random() < 0.3})
-    return {"profile": rnd.choice([True, False]), "has_legacy": rnd.random() < 0.9, "other_profile": rnd.random() < 0.3, "buckets": buckets}
+    if len(buckets) >= 2 and rnd.random() < 0.3:
+        buckets[1]["id"] = buckets[0]["id"].swapcase()        # two legacy ids that differ only in letter case (a renamed host)
+    return {"profile": rnd.choice([True, False]), "has_legacy": rnd.random() < 0.9, "other_profile": rnd.random() < 0.3, "buckets": buckets,
+            "surrogate": rnd.random() < 0.25}
 
 
 def _child(case, seed, root):
@@ -80,6 +83,9 @@ def _child(case, seed, root):
                 evs.append(Event(timestamp=ts, duration=dur, data=data))
             if b["dups"] and evs:
                 evs.append(copy.deepcopy(evs[0]))
+            if case.get("surrogate") and evs:
+                # a title cut in the middle of an emoji: an unpaired UTF-16 surrogate is legal in a Python str and in JSON text
+                evs.append(Event(timestamp=evs[0].timestamp, duration=2, data={"title": "party \ud83c", "n": [1, "\udc00x"]}))
             if evs:
                 bk.insert(evs)
             stored = bk.get(-1)
